@@ -5,9 +5,16 @@
 // SYMBOLIC dependency graph over NL (2..4) libraries 'a'..: one global class per library; the class of library u
 // has one base-class slot per other library v, and the edge bit E[u][v] decides whether that slot holds the global
 // class of library v (a cross-library inheritance edge u -> v) or a class that is not global (no edge).  Every
-// edge bit is either fixed by the catalogue entry (-DE_ONE / -DE_ZERO bit masks, bit u*NL+v) or symbolic, so one
-// query decides a whole family of labelled digraphs, cyclic or not.  -DE_TYPEDEF: bit mask of edges that are made by
-// a typedef (class u is a typedef wrapping the class of v) instead of a base class (at most one per u).
+// edge bit is either fixed by the catalogue entry (-DE_ONE / -DE_ZERO bit masks, bit u*NL+v) or FREE; the free bits
+// form one symbolic bit vector (values CODE_FROM..CODE_TO-1), so one query decides a whole family of labelled
+// digraphs, cyclic or not.  -DE_TYPEDEF: bit mask of edges that are made by a typedef (class u is a typedef wrapping
+// the class of v) instead of a base class (at most one per u).
+//
+// The solver chooses the value of the bit vector; the harness branches on it (verif_same, models/casesplit.c) and
+// every branch runs the real code on constants.  Feeding the symbolic bits into the tool directly was tried first:
+// deps.insert() under a symbolic condition makes the node pointers of the std::set symbolic, every later
+// erase/iteration dereferences them, and symbolic execution does not finish in 10 minutes even for NL=2 (2 bits).
+// Cost is ~7 s per 4-library graph, which is what bounds the families in harness/cat/c16.py.
 //
 // The interrogate_* query functions are cut from interrogate_interface.cxx and answer from this database.
 // Observation point: the "Referencing Library %s" progress message printed for each element of the ordered
@@ -51,6 +58,7 @@ extern std::string module_name;
 extern std::string library_name;
 
 extern "C" {
+bool verif_same(unsigned a, unsigned b);   // models/casesplit.c: a == b, hidden from the compiler's equality propagation
 unsigned vp_count();
 unsigned vp_char(unsigned i, unsigned j);
 void vp_reset();
@@ -77,6 +85,7 @@ extern "C" int printf(const char *fmt, ...) {
 extern "C" unsigned vp_count() { return g_n; }
 extern "C" unsigned vp_char(unsigned i, unsigned j) { return g_chars[i][j]; }
 extern "C" void vp_reset() { g_n = 0; }
+extern "C" bool verif_same(unsigned a, unsigned b) { return a == b; }
 #endif
 
 // ---- the database --------------------------------------------------------------------------------------------
@@ -183,7 +192,7 @@ extern "C" void harness_c16_graph() {
   // symbolic node pointers and symbolic execution does not finish even for two libraries).
   // Every case starts from the pristine state (the branch leaves the loop: no state of one case is merged into the next).
   for (unsigned code = CODE_FROM; code < CODE_TO; code++) {
-    if (mask == code) { run_case(code); break; }
+    if (verif_same(mask, code)) { run_case(code); break; }
   }
   WITNESS();
 }
